@@ -28,7 +28,8 @@ RULE = ("one run = one Resampler (or resampling actor, or MovingWindow) with dra
         "some tick fired at least half a period late or a series was added while running; distinct = abstract digest "
         "of (tick/add/stall, series) sequence"
         " Also: 30-70 series in 6% of runs, resample() started 0-5.25 periods after construction, a sample counts"
-        " as delivered when the sink call returns.")
+        " as delivered when the sink call returns."
+        " MovingWindow variant: input period a quarter of or equal to the resampling period.")
 QUICK_RUNS = 4000
 THOROUGH_RUNS = 250_000
 EXPECT_PROBES = ["created_on_grid", "created_1us_before_grid", "created_1us_after_grid", "tick_late_ge_1_period",
